@@ -539,6 +539,7 @@ class Fn:
         self.preds = raw.get("preds", [])
         self.root = N[raw["root"]] if "root" in raw else None
         self.parent = N[raw["parent"]] if "parent" in raw else None
+        self.upvar_tys = [T[t] for t in raw.get("upvar_tys", [])]
         self._body = None
         self._promoted = None
 
@@ -567,14 +568,23 @@ class Fn:
         return "<fn %s @%s>" % (self.p, self.span.loc())
 
 
+_NORM = re.compile(r"\b(std|alloc)::")
+
+
+def _norm(s):
+    return _NORM.sub("core::", s)
+
+
 class Crate:
     def __init__(self, path):
         with open(path) as f:
             raw = json.load(f)
         self.name = raw["crate"]
         self.cfg = raw["cfg"]
-        self.types = raw["types"]
-        self.names = raw["names"]
+        # one canonical spelling for std/alloc/core re-exports (the printed path depends on
+        # which facade the crate happens to see)
+        self.types = [_norm(t) for t in raw["types"]]
+        self.names = [_norm(t) for t in raw["names"]]
         self._spans_raw = raw["spans"]
         self._spans = {}
         N = self.names
